@@ -111,6 +111,19 @@ func extractSketch(repo string) (map[string]string, error) {
 		}
 		fmt.Fprintf(&b, "def %s_bit (h1 h2 i bitsMask : BitVec 32) : BitVec 32 := %s\n", spec[2], t)
 	}
+	// nextPowerOfTwo: straight-line uint32 code -> a let-chain
+	npt, err := fl.Func("nextPowerOfTwo")
+	if err != nil {
+		return nil, err
+	}
+	body, err := leanLetChain(npt)
+	if err != nil {
+		return nil, err
+	}
+	if npt.Type.Params == nil || len(npt.Type.Params.List) != 1 || len(npt.Type.Params.List[0].Names) != 1 {
+		return nil, fmt.Errorf("filter.go: nextPowerOfTwo: unexpected parameters")
+	}
+	fmt.Fprintf(&b, "def nextPowerOfTwo (%s : BitVec 32) : BitVec 32 :=\n%s", npt.Type.Params.List[0].Names[0].Name, body)
 	// every slice index expression of the two files: "func: slice[index]"
 	var idx []string
 	for _, f := range []*goast.File{sk, fl} {
@@ -302,4 +315,58 @@ func leanBV(e ast.Expr) (string, error) {
 		return "(" + x + " " + op + " " + y + ")", nil
 	}
 	return "", fmt.Errorf("translator: unsupported expression %s", goast.ExprString(e))
+}
+
+// leanLetChain renders a straight-line uint32 function body (`x := e`, `x = e`, `x op= e`, `x++`,
+// `x--`, one final `return e`) as a chain of Lean `let`s; any other statement is refused.
+func leanLetChain(fd *ast.FuncDecl) (string, error) {
+	var b strings.Builder
+	opAssign := map[token.Token]token.Token{token.OR_ASSIGN: token.OR, token.AND_ASSIGN: token.AND, token.XOR_ASSIGN: token.XOR,
+		token.ADD_ASSIGN: token.ADD, token.SUB_ASSIGN: token.SUB, token.MUL_ASSIGN: token.MUL, token.SHL_ASSIGN: token.SHL, token.SHR_ASSIGN: token.SHR}
+	for i, st := range fd.Body.List {
+		switch t := st.(type) {
+		case *ast.AssignStmt:
+			if len(t.Lhs) != 1 || len(t.Rhs) != 1 {
+				return "", fmt.Errorf("translator: multi-assignment in %s", fd.Name.Name)
+			}
+			id, ok := t.Lhs[0].(*ast.Ident)
+			if !ok {
+				return "", fmt.Errorf("translator: assignment target in %s", fd.Name.Name)
+			}
+			rhs := t.Rhs[0]
+			if op, ok := opAssign[t.Tok]; ok {
+				rhs = &ast.BinaryExpr{X: id, Op: op, Y: t.Rhs[0]}
+			} else if t.Tok != token.DEFINE && t.Tok != token.ASSIGN {
+				return "", fmt.Errorf("translator: assignment operator %s", t.Tok)
+			}
+			e, err := leanBV(rhs)
+			if err != nil {
+				return "", err
+			}
+			fmt.Fprintf(&b, "  let %s := %s\n", id.Name, e)
+		case *ast.IncDecStmt:
+			id, ok := t.X.(*ast.Ident)
+			if !ok {
+				return "", fmt.Errorf("translator: ++/-- target in %s", fd.Name.Name)
+			}
+			op := "+"
+			if t.Tok == token.DEC {
+				op = "-"
+			}
+			fmt.Fprintf(&b, "  let %s := (%s %s (1 : BitVec 32))\n", id.Name, id.Name, op)
+		case *ast.ReturnStmt:
+			if len(t.Results) != 1 || i != len(fd.Body.List)-1 {
+				return "", fmt.Errorf("translator: return in %s", fd.Name.Name)
+			}
+			e, err := leanBV(t.Results[0])
+			if err != nil {
+				return "", err
+			}
+			fmt.Fprintf(&b, "  %s\n", e)
+			return b.String(), nil
+		default:
+			return "", fmt.Errorf("translator: statement %T in %s", st, fd.Name.Name)
+		}
+	}
+	return "", fmt.Errorf("translator: %s does not end in a return", fd.Name.Name)
 }
